@@ -67,6 +67,15 @@ PROPS["C11"] = {
     "note": "The tree surgery (wrap/remove) is modelled by applyEvent on a flat node list and tied by correspondence only; unicode.Is/In enter as parameters (UExt) whose values for the runes of each input are supplied by the real library at run time. The fuel of procLoop (2*total length + 2*stack size + 2) is shown adequate by the correspondence run, not yet by a theorem.",
 }
 
+PROPS["C12"] = {
+    "modules": ["CM.Props.C12"],
+    "level": "other",
+    "design_ref": "DESIGN.md §6 C12",
+    "technique": "Lean 4 theorems for the extraction clause (first_definition_wins, earlier_block_wins, extract_is_preorder: all forests) + correspondence of Extract and label normalisation with the Lean models + Lean label specification as oracle (exhaustive short labels, fold-heavy random labels) + generated documents with competing definitions + closure oracles on the implementation",
+    "text": "Clause (b): Model.extractNode/extractAll is ReferenceMap.Extract / Parse's loop (explicit-stack DFS read recursively, tied by comparing the real map, in insertion order, with the model's on every generated document); first_definition_wins and earlier_block_wins prove for every forest that the value of a key is that of the first definition in document pre-order, containers included. Clause (a): Model.normalizeLabel (collapse, trim spaces, fold) is compared with VerifNormalizeLabel and with Spec.normalizeLabelSpec (fold of the words joined by single spaces) on all labels <= 5/6 over {a,B,ß,SP,TAB,LF,NBSP,\\]} and on random labels with multi-character and final-sigma folds; the equality model = spec is a stated target, not yet a theorem. Clause (c) and the matching relation are decided on generated documents: a use resolves iff the specification's normal forms of use and a recognised definition agree, the first matching definition supplies the destination, every reference node names a key, keys are fixed points of normalisation, the map equals re-extraction. Hence 'other'.",
+    "note": "cases.Fold enters as a per-rune table computed by the real library for the runes of each label (context-free folding is assumed and would show as a correspondence difference). Clause (c) needs the inline parser model.",
+}
+
 MONITOR_NOTE = "No theorem about the parser model backs this property yet (the block/inline parser model is not in Lean at this commit): the property's statement is an executable Lean definition (lean/CM/Spec) evaluated by the Lean driver on every tree the real parser returns for the generated inputs. That is monitoring against a formal specification, not a proof; it is claimed as 'other'."
 
 def monitored(pid, spec, what):
